@@ -215,6 +215,18 @@ func (fb *fileBuilder) printFieldStyle(name string, number int32, elem protorefl
 		return err
 	}
 
+	if field, ok := elem.(protoreflect.FieldDescriptor); ok && !field.IsExtension() {
+		// A JSON name other than the default lowerCamelCase of the field name
+		// is part of the descriptor and has to be carried by the text.
+		if jsonName := field.JSONName(); jsonName != defaultJSONName(string(field.Name())) {
+			options = append(options, parsedOption{
+				inline:        true,
+				inlineString:  proto.String(optionreflect.QuoteString(jsonName)),
+				qualifiedName: "json_name",
+			})
+		}
+	}
+
 	fb.leadingComments(srcLoc)
 
 	if len(options) == 0 {
@@ -253,4 +265,24 @@ func (fb *fileBuilder) printFieldStyle(name string, number int32, elem protorefl
 	fb.trailingComments(srcLoc)
 
 	return nil
+}
+
+// defaultJSONName is the JSON name protoc derives from a field name: underscores
+// are dropped and the letter following one is upper-cased.
+func defaultJSONName(name string) string {
+	out := make([]byte, 0, len(name))
+	upperNext := false
+	for i := 0; i < len(name); i++ {
+		c := name[i]
+		if c == '_' {
+			upperNext = true
+			continue
+		}
+		if upperNext && 'a' <= c && c <= 'z' {
+			c -= 'a' - 'A'
+		}
+		upperNext = false
+		out = append(out, c)
+	}
+	return string(out)
 }
